@@ -44,5 +44,6 @@ def run(ck):
         for m in ("block", "try"):
             c.append("contend %d %d %s" % (np_, 200, m))
     hist.append(c)
+    hist.append(["dirtyunlock try", "dirtyunlock block"])   # the holder's buffered data cannot be flushed when it unlocks
     ck.sample(hist[0][:3]); ck.sample(hist[1][:8]); ck.sample(c[:1])
     ck.kcompare("k", exe, "c19", hist, keep_head=0, impl_args=[scratch], what="zix_file_lock/unlock differ from the model or from the specification on real handles/processes")
